@@ -57,6 +57,10 @@ func eval(op string, args []string) (ans string, direct []string) {
 }
 
 func (r *Runner) Do(op string, args []string, tag string, nontrivial bool, desc string) {
+	if _, ok := ops[op]; !ok {
+		// both sides would answer bad-op and agree: a misspelt name must not pass for a case
+		panic("generator names an operation that is not registered: " + op)
+	}
 	r.DoMode(op, args, tag, nontrivial, desc, ops[op].mode)
 }
 
